@@ -1,4 +1,4 @@
-import RxnModel.Proofs.CompactionWriteRun
+import RxnModel.Proofs.CompactionLsm
 import RxnModel.Generated.Facts
 /-!
 # C18 — compaction never changes what the database contains
@@ -50,6 +50,17 @@ theorem compact_is_safe (c : Compactor) (L : Levels) (o : Oracle) (cs : ChangeSe
     (hv : LayoutValid L) (hid : (L.flatten.map (·.id)).Nodup) (hage : L0KeyAgeOrdered L) (hlen : 2 ≤ L.length)
     (h : compact c L o = (some cs, c')) : SafeCS L cs.rm cs.lvl cs.add :=
   compact_safe (weakValid_of_layoutValid hv) hid hage hlen h
+
+/-- **Whatever order the unstable sort gives to tables of equal age**: `slices.SortedFunc(level.AllTables(),
+OrderOldToNew)` is stable only up to 12 tables; ages can tie across checkpoint sources. For every arrangement `order`
+of the levels that is a permutation with non-decreasing ages (`OrderOK`), the change set `Compact` produces with that
+arrangement is in the safe family. (`compact` is `compactWith sortByAge`, the stable arrangement.) -/
+theorem compact_is_safe_any_tie_order (order : List Tbl → List Tbl) (ho : OrderOK order)
+    (c : Compactor) (L : Levels) (o : Oracle) (cs : ChangeSet) (c' : Compactor)
+    (hv : LayoutValid L) (hid : (L.flatten.map (·.id)).Nodup) (hage : L0KeyAgeOrdered L) (hlen : 2 ≤ L.length)
+    (h : compactWith order c L o = (some cs, c')) : SafeCS L cs.rm cs.lvl cs.add :=
+  safe_of_structOK (weakValid_of_layoutValid hv)
+    (compactWith_struct order ho (weakValid_of_layoutValid hv) hid hage hlen h)
 
 /-- level 0 built by flushes: ages increase in insertion order (kept by every flush, `compaction_with_flushes_invariant`) -/
 theorem flush_built_level0 (L : Levels) (h : L0AgeOrdered L) : L0KeyAgeOrdered L := keyAge_of_age h
@@ -115,6 +126,91 @@ theorem compact_fixpoint (s s' : Sys) (as : List Compaction.Act) (hi : SysInv s)
     (hnf : ∀ a ∈ as, a.isFlush = false) :
     (∀ k, levelsGet s'.L k = levelsGet s.L k) ∧ (∀ p, scanView s'.L p = scanView s.L p) ∧ LayoutValid s'.L :=
   ⟨(reach_view hr hi hnf).1, (reach_view hr hi hnf).2, (reach_inv hr hi).valid⟩
+
+/-! ## The compactor inside the DKV transition system of C07 (`Lsm.step`, `Lsm.runBoth`)
+
+`DB` = `Lsm.State` + compactor cursor + pending change set; `DB.step`: any foreground action of the DKV system
+(`fg`), `compactBegin o` (the task calls `compact` on the current level list with arbitrary size answers `o`),
+`compactCommit` (= `Lsm.step (.compact rm lvl add)`, guarded by the executable test `Lsm.safeCS`). Nothing about
+flushes or level-0 ages is assumed: it is derived from `Lsm.step`. The only side condition is `OracleSane` for
+`compactBegin` (level-0 trigger ≥ 1, thresholds ≥ 0: a pick is never empty). -/
+
+/-- **Every pick passes the guard**: a change set the modelled `Compact` produces on a valid layout is accepted by
+`Lsm.safeCS`, the enabling condition of the DKV system's compaction commit. Together with `compaction_sound` this
+makes "every compaction the code can choose preserves the contents" a theorem about the C07 system. -/
+theorem pick_is_safe (c : Compactor) (L : Levels) (o : Oracle) (cs : ChangeSet) (c' : Compactor)
+    (hv : LayoutValid L) (hid : (L.flatten.map (·.id)).Nodup) (hage : L0KeyAgeOrdered L) (hlen : 2 ≤ L.length)
+    (hs : OracleSane c L o) (h : compact c L o = (some cs, c')) : safeCS L cs.rm cs.lvl cs.add = true :=
+  compact_passes (weakValid_of_layoutValid hv) hid hage hlen hs h
+
+/-- **Reachable states of the DKV system with its compaction task**: after any history from the empty database
+(puts, deletes, rotations, flush begins and commits, two-phase reads, `Compact` calls with sane answers, compaction
+commits) the refinement invariant of C07 holds, table ids are distinct and below the counter, there are at least two
+levels, sequence numbers separate level-0 tables and memtables in time (hence level-0 tables sharing a key are
+age-ordered: the hypothesis of `compact_is_safe` is *derived*), and a pending change set has the structural shape
+of a pick for the level list **as it is now**. -/
+theorem db_reachable_invariant (as : List DAct) (d : DB) (m : Spec)
+    (hok : ({} : DB).runOK as) (h : ({} : DB).run [] as = some (d, m)) :
+    DInv d m ∧ L0KeyAgeOrdered d.s.levels ∧ WeakValid d.s.levels :=
+  have hi := db_run_inv as {} [] d m dinv_init hok h
+  ⟨hi, keyAge_of_chron hi.chron, weakValid_of_inv hi.inv⟩
+
+/-- **Live tables never share a number**: in every reachable state of the DKV system with its compaction task —
+flush commits and compaction commits interleaved in any way, a flush committing between the computation and the
+commit of a change set included — the ids of the tables in the level list are pairwise distinct and below the
+counter the next table will get. (The code hands out the file number of a table atomically in
+`TableWriter.Write`, shared by the flush and the compaction task; the correspondence drives a flush's write into
+the compaction's write window and compares the live tables' files, op `chk`.) -/
+theorem live_table_ids_distinct (as : List DAct) (d : DB) (m : Spec)
+    (hok : ({} : DB).runOK as) (h : ({} : DB).run [] as = some (d, m)) :
+    (d.s.levels.flatten.map (·.id)).Nodup ∧ ∀ t ∈ d.s.levels.flatten, t.id < d.s.nextId :=
+  (db_run_inv as {} [] d m dinv_init hok h).ids
+
+/-- **Every compaction the code can choose is admitted and changes no answer**: in every reachable state a pending
+change set — computed by `Compact` at some earlier moment, with any flush commits and writes in between — passes
+the guard, so the commit step exists, and after it every `Get` and every `ScanPrefix` answer what they answered
+before (and what the map of all writes says). -/
+theorem real_compaction_commit (as : List DAct) (d : DB) (m : Spec) (cs : ChangeSet)
+    (hok : ({} : DB).runOK as) (h : ({} : DB).run [] as = some (d, m)) (hp : d.pending = some cs) :
+    safeCS d.s.levels cs.rm cs.lvl cs.add = true ∧
+    ∃ d', d.step .compactCommit = some d' ∧
+      (∀ k, get d'.s k = get d.s k) ∧ (∀ p, scan d'.s p = scan d.s p) ∧ (∀ k, get d'.s k = Spec.get m k) := by
+  have hi := db_run_inv as {} [] d m dinv_init hok h
+  have hsafe := pending_commit_enabled hi hp
+  refine ⟨hsafe, ?_⟩
+  have hstep : d.step .compactCommit = some { d with
+      s := { d.s with levels := addAt (removeIds cs.rm d.s.levels) cs.lvl (mkTables d.s.nextId cs.add),
+                      nextId := d.s.nextId + cs.add.length }, pending := none } := by
+    simp only [DB.step, hp, Lsm.step, hsafe, if_true, Option.map_some]
+  refine ⟨_, hstep, ?_⟩
+  have hi' : DInv _ m := dinv_step (a := .compactCommit) hi trivial hstep
+  have hget : ∀ (x : DB) (hx : DInv x m) (k : Bytes), get x.s k = Spec.get m k :=
+    fun x hx k => by rw [get_eq_firstHit hx.inv, hx.inv.hit k]
+  refine ⟨fun k => by rw [hget _ hi' k, hget _ hi k], ?_, fun k => hget _ hi' k⟩
+  intro p
+  have h1 := scan_spec hi'.inv p
+  have h2 := scan_spec hi.inv p
+  exact sorted_mem_ext h1.1 h2.1 (fun e => by rw [h1.2 e, h2.2 e])
+
+/-- **The view of a history is the view of the same history without its compactions** (DKV system of C07, any
+compaction commits that pass the guard): erasing every compaction commit from a history from the empty database
+gives again a history, with the same map of writes, the same `Get` for every key and the same `ScanPrefix` for
+every prefix. -/
+theorem view_is_view_without_compactions (as : List Lsm.Act) (s : Lsm.State) (m : Spec)
+    (h : runBoth {} [] as = some (s, m)) :
+    ∃ s0, runBoth {} [] (dropCompactions as) = some (s0, m) ∧
+      (∀ k, get s k = get s0 k) ∧ (∀ p, scan s p = scan s0 p) :=
+  view_without_compactions as s m h
+
+/-- the same for the system with the real compaction task: whatever the task did (any `Compact` calls, any commit
+points between the foreground actions), the database answers like the one that only ran the foreground actions -/
+theorem db_view_is_foreground_view (as : List DAct) (d : DB) (m : Spec) (h : ({} : DB).run [] as = some (d, m)) :
+    ∃ s0, runBoth {} [] (foreground as) = some (s0, m) ∧
+      (∀ k, get d.s k = get s0 k) ∧ (∀ p, scan d.s p = scan s0 p) := by
+  obtain ⟨acts, hr, hd⟩ := db_run_lsm as {} [] d m h
+  obtain ⟨s0, h0, hg, hs⟩ := view_without_compactions acts d.s m hr
+  rw [hd] at h0
+  exact ⟨s0, h0, hg, hs⟩
 
 /-- a single step that is not a flush (computing or committing a change set, also with flushes before and after
 it in the history) leaves every `Get` and every scan unchanged -/
@@ -209,5 +305,25 @@ example : ¬ L0AgeOrdered compL ∧ L0KeyAgeOrdered compL ∧ LayoutValid compL 
   refine ⟨by unfold L0AgeOrdered; decide, by unfold L0KeyAgeOrdered; decide, by decide⟩
 
 example : (majorCompaction compL { d22O with goalMet := fun n => decide (2 ≤ n) }).rm = [2, 0, 3] := by decide
+
+/-- a history of the DKV system with its compaction task: writes, rotation, flush, then a `Compact` call that picks
+(minor, level 0 → 1) while a further write follows: the run succeeds and leaves a pending change set, so
+`real_compaction_commit` applies (its commit exists and changes no answer) -/
+def demoOracle : Oracle :=
+  { l0Few := false, overAmp := false, goalMet := fun _ => false, levelOver := fun _ => false, cuts := [] }
+
+def dbDemo : List DAct :=
+  [.fg (.put [1] [10]), .fg .rotate, .fg (.flushBegin 1), .fg .flushCommit, .fg (.put [1] [11]),
+   .compactBegin demoOracle, .fg (.put [2] [20])]
+
+example : (({} : DB).run [] dbDemo).map (fun x => (x.1.pending.map (·.rm), x.1.s.levels.map (·.length), x.2.length))
+    = some (some [0], [1, 0, 0, 0, 0, 0], 3) := by decide
+
+/-- the oracle answers of that `Compact` call are sane for the level list it saw -/
+example : OracleSane {} [[⟨0, [⟨[1], 1, false, [10]⟩]⟩], [], [], [], [], []] demoOracle :=
+  ⟨fun _ _ => by simp, fun i h => by simp [demoOracle] at h, fun h => by simp [demoOracle] at h⟩
+
+example : foreground dbDemo =
+    [.put [1] [10], .rotate, .flushBegin 1, .flushCommit, .put [1] [11], .put [2] [20]] := rfl
 
 end Rxn.C18
